@@ -1,4 +1,373 @@
-//! c05 check (under construction)
+//! C05 / C06 / C07: explicit-state exploration of the path manager's per-pair worker.
+//! BFS over event histories; every history is executed on a fresh real `PathSet` (through the
+//! `verif_api` hooks); states are merged on a canonical key with all times relative to `now`.
+//! One exploration, three oracle groups; the invocation reports the group of `args.prop`.
+use std::{
+    collections::{BTreeMap, HashSet},
+    sync::atomic::Ordering,
+};
+
+use rayon::prelude::*;
+use serde_json::{Value, json};
+
+use crate::{universe::*, world::*};
+
+struct Child {
+    hist: Hist,
+    key: String,
+    viol: Vec<Viol>,
+    stats: Stats,
+    replays: u64,
+}
+
+/// All successors of `h` (every enabled event x every lookup-outcome vector it consumes).
+fn successors(cfg: Cfg, h: &Hist, events: &[Ev], alphabet: &[Out]) -> (Vec<Child>, u64, Vec<(String, Hist)>) {
+    let mut out = vec![];
+    let mut replays = 0u64;
+    let mut panics = vec![];
+    for &ev in events {
+        let mut stack: Vec<Vec<Out>> = vec![vec![]];
+        while let Some(os) = stack.pop() {
+            let mut nh = h.clone();
+            nh.push(Step { ev, outs: os.clone() });
+            replays += 1;
+            match replay(cfg, &nh, false) {
+                Err(Stop::NeedOutcome) => {
+                    for o in alphabet.iter().rev() {
+                        let mut n = os.clone();
+                        n.push(*o);
+                        stack.push(n);
+                    }
+                }
+                Err(Stop::UnusedOutcome) => {}
+                Err(Stop::TieMismatch) => panics.push(("tie-choice-unreachable".to_string(), nh)),
+                Err(Stop::Panic(m)) => panics.push((m, nh)),
+                Ok(w) => {
+                    // branch on the hash-order tie-break where one was met
+                    for (j, tp) in w.last_tie_points.iter().enumerate() {
+                        if *tp && os[j].tie == 0 && os[j + 1..].iter().all(|o| o.tie == 0) {
+                            let mut n = os.clone();
+                            n[j].tie = 1;
+                            stack.push(n);
+                        }
+                    }
+                    out.push(Child { key: w.key(), viol: w.viol.clone(), stats: w.stats.clone(), hist: nh, replays: 1 });
+                }
+            }
+        }
+    }
+    (out, replays, panics)
+}
+
+fn witness(cfg: &Cfg, h: &Hist, at: u32) -> Value {
+    json!({
+        "config": cfg.name,
+        "max_cached": cfg.max_cached,
+        "min_refetch_delay_s": cfg.min_delay,
+        "history": h.iter().map(step_json).collect::<Vec<_>>(),
+        "history_text": hist_text(h),
+        "observed_at_s": at,
+        "branch_ticks": MAX_BRANCH_TICKS.load(Ordering::Relaxed),
+    })
+}
+
+fn do_replay(file: &std::path::Path) -> ! {
+    let v = vpc::read_replay(file);
+    let w = &v["witness"];
+    let name = w["config"].as_str().unwrap_or("A2");
+    let cfg = configs().into_iter().find(|c| c.name == name).unwrap_or_else(|| vpc::machinery_failure("unknown config in replay"));
+    if let Some(b) = w["branch_ticks"].as_u64() {
+        MAX_BRANCH_TICKS.store(b as usize, Ordering::Relaxed);
+    }
+    let hist: Hist = w["history"].as_array().map(|a| a.iter().map(|s| step_from_json(s).unwrap_or_else(|| vpc::machinery_failure("bad step in replay"))).collect()).unwrap_or_default();
+    println!("replaying [{}] on config {} : {}", v["class"].as_str().unwrap_or("?"), cfg.name, hist_text(&hist));
+    match replay(cfg, &hist, true) {
+        Err(e) => {
+            println!("replay stopped: {e:?}");
+            std::process::exit(1)
+        }
+        Ok(w) => {
+            for t in w.trace.as_ref().unwrap() {
+                println!("  {t}");
+            }
+            for x in &w.viol {
+                println!("  ORACLE {} [{}] at t+{}: {}", x.prop, x.class, x.at, x.what);
+            }
+            std::process::exit(if w.viol.is_empty() { 0 } else { 1 })
+        }
+    }
+}
+
+struct Phase {
+    name: &'static str,
+    what: &'static str,
+    events: Vec<Ev>,
+    alphabet: Vec<Out>,
+    max_depth: usize,
+    /// share of the wall-clock budget
+    share: f64,
+}
+
+fn phases(quick: bool, arg: &dyn Fn(&str) -> Option<u64>) -> Vec<Phase> {
+    let full = alphabet();
+    let deltas: Vec<u32> = vec![1, 4, 6, 11, 21, 41, 91];
+    let long = 20 * HALF_LIFE + 1;
+    let adv = |ds: &[u32]| ds.iter().map(|d| Ev::Adv(*d)).collect::<Vec<_>>();
+    let issues: Vec<Ev> = (0..ISSUES.len()).map(|k| Ev::Issue(k as u8)).collect();
+    let o = |set, prof| Out { set, prof, tie: 0 };
+    let mut v = vec![];
+    // 1. everything x everything
+    let mut ev = adv(&deltas);
+    ev.extend([Ev::AdvLate(6), Ev::AdvLate(21)]);
+    ev.extend(issues.iter().copied());
+    ev.push(Ev::Deliver);
+    v.push(Phase { name: "full", what: "all events x all lookup outcomes", events: ev, alphabet: full.clone(), max_depth: arg("--depth").unwrap_or(if quick { 2 } else { 3 }) as usize, share: 0.4 });
+    // 2. expiry / schedule focus: no issues, outcomes with every expiry profile on {p1}, {p1,p2}
+    let mut ev = adv(&deltas);
+    ev.extend([Ev::AdvLate(6), Ev::AdvLate(21)]);
+    let mut al = vec![o(Set::Err, 0), o(Set::Empty, 0), o(Set::Rej, 0), o(Set::P2, 0)];
+    for p in 0..4 {
+        al.push(o(Set::P1, p));
+        al.push(o(Set::P12, p));
+    }
+    v.push(Phase { name: "expiry", what: "clock advances (incl. one late tick) x lookup outcomes {Err, Ok{}, Ok{p4}, Ok{p2}, Ok{p1}/Ok{p1,p2} x 4 expiry profiles}; no issue events", events: ev, alphabet: al, max_depth: arg("--depth-expiry").unwrap_or(if quick { 3 } else { 4 }) as usize, share: 0.3 });
+    // 3. issue focus: all issue kinds, Deliver, advances incl. > 20 half-lives; lookups keep the path set stable
+    let mut ds = deltas.clone();
+    ds.push(long);
+    let mut ev = adv(&ds);
+    ev.extend(issues.iter().copied());
+    ev.push(Ev::Deliver);
+    let al = vec![o(Set::Err, 0), o(Set::P1, 0), o(Set::P2, 0), o(Set::P12, 0), o(Set::P123, 0)];
+    v.push(Phase { name: "issues", what: "all issue kinds, Deliver, clock advances incl. 1801 s (> 20 half-lives) x lookup outcomes {Err, Ok{p1}, Ok{p2}, Ok{p1,p2}, Ok{p1,p2,p3}} all far-expiry", events: ev, alphabet: al, max_depth: arg("--depth-issues").unwrap_or(if quick { 3 } else { 5 }) as usize, share: 0.3 });
+    if let Some(only) = arg("--phase") {
+        return v.into_iter().enumerate().filter(|(i, _)| *i as u64 == only).map(|(_, p)| p).collect();
+    }
+    v
+}
+
 pub fn run(args: &vpc::Args) -> ! {
-    vpc::machinery_failure(&format!("property {} not implemented yet", args.prop))
+    if std::env::var_os("VERIF_LOUD").is_none() {
+        quiet_panics_tl();
+    }
+    if let Some(f) = &args.replay {
+        do_replay(f);
+    }
+    let run = vpc::Run::new(args);
+    let quick = run.tier == vpc::Tier::Quick;
+    let arg = |name: &str| args.extra.iter().position(|a| a == name).and_then(|i| args.extra.get(i + 1)).and_then(|v| v.parse::<u64>().ok());
+    let budget_s = arg("--budget").unwrap_or(if quick { 50 } else { 840 }) as f64;
+    let branch_ticks = arg("--branch-ticks").unwrap_or(1) as usize;
+    MAX_BRANCH_TICKS.store(branch_ticks, Ordering::Relaxed);
+
+    // self-test of the universe builder: expiry and distinct fingerprints
+    for i in 0..UNIVERSE.len() {
+        if mk_path(i, T0 + 77).expiration() != Some(T0 + 77) {
+            vpc::machinery_failure("universe builder: expiry is not what was asked for");
+        }
+    }
+    if fp_table().len() != UNIVERSE.len() {
+        vpc::machinery_failure("universe builder: fingerprints collide");
+    }
+
+    let cfgs = configs();
+    let mut total_states = 0u64;
+    let mut total_trans = 0u64;
+    let mut total_replays = 0u64;
+    let mut exhaustive = true;
+    let mut agg = Stats::default();
+    let mut other_props: BTreeMap<String, u64> = BTreeMap::new();
+    let mut state_classes: BTreeMap<&'static str, u64> = BTreeMap::new();
+    let mut panics_seen: BTreeMap<String, (String, Value)> = BTreeMap::new();
+    let reported: std::cell::RefCell<std::collections::BTreeSet<String>> = Default::default();
+    let mut phase_reports = vec![];
+    let mut bounds = vec![];
+
+    let handle = |run: &vpc::Run, cfg: &Cfg, c: &Child, agg: &mut Stats, other: &mut BTreeMap<String, u64>| {
+        for v in &c.viol {
+            if v.prop == run.prop {
+                // "+late-tick" labels a finding only while the same class has not been reached without the deviation
+                let base = v.class.trim_end_matches("+late-tick").to_string();
+                let class = if v.class.ends_with("+late-tick") && reported.borrow().contains(&base) { base.clone() } else { v.class.clone() };
+                reported.borrow_mut().insert(class.clone());
+                run.violation(&class, &format!("[cfg {} max_cached {}] {} :: history: {}", cfg.name, cfg.max_cached, v.what, hist_text(&c.hist)), witness(cfg, &c.hist, v.at));
+            } else {
+                *other.entry(format!("{}:{}", v.prop, v.class.trim_end_matches("+late-tick"))).or_default() += 1;
+            }
+        }
+        let s = &c.stats;
+        agg.ticks += s.ticks;
+        agg.lookups += s.lookups;
+        agg.slot_changes += s.slot_changes;
+        agg.slot_changed_after_issue += s.slot_changed_after_issue;
+        agg.issue_consumed_on_slot += s.issue_consumed_on_slot;
+        agg.steer_demanded += s.steer_demanded;
+        agg.steer_dontcare += s.steer_dontcare;
+        agg.steer_no_alternative += s.steer_no_alternative;
+        agg.unrelated_deliver += s.unrelated_deliver;
+        agg.dedup_ignored += s.dedup_ignored;
+        agg.tie_points += s.tie_points;
+        agg.recover_selected += s.recover_selected;
+    };
+
+    let phases = phases(quick, &arg);
+    let mut budget_used = 0.0;
+    for ph in &phases {
+        let phase_start = run.elapsed_s();
+        budget_used += ph.share;
+        let deadline = budget_s * budget_used;
+        let mut seen: Vec<HashSet<u64>> = cfgs.iter().map(|_| HashSet::new()).collect();
+        let mut frontier: Vec<Vec<Hist>> = cfgs.iter().map(|_| vec![]).collect();
+        let mut per_depth: Vec<Vec<u64>> = cfgs.iter().map(|_| vec![]).collect();
+        let mut ph_trans = 0u64;
+        let mut ph_replays = 0u64;
+        let mut completed = ph.max_depth;
+        // depth 0: the initial lookup
+        for (ci, cfg) in cfgs.iter().enumerate() {
+            let (children, rp, panics) = successors(*cfg, &vec![], &[Ev::Init], &ph.alphabet);
+            ph_replays += rp;
+            for p in panics {
+                panics_seen.entry(p.0.clone()).or_insert_with(|| (format!("[cfg {}] {} :: history: {}", cfg.name, p.0, hist_text(&p.1)), witness(cfg, &p.1, 0)));
+            }
+            let mut n = 0;
+            for c in children {
+                ph_trans += 1;
+                handle(&run, cfg, &c, &mut agg, &mut other_props);
+                classify_state(&mut state_classes, &c);
+                if seen[ci].insert(vpc::fnv64(c.key.as_bytes())) {
+                    n += 1;
+                    frontier[ci].push(c.hist);
+                }
+            }
+            per_depth[ci].push(n);
+        }
+        'levels: for depth in 1..=ph.max_depth {
+            for (ci, cfg) in cfgs.iter().enumerate() {
+                let fr = std::mem::take(&mut frontier[ci]);
+                let mut next: Vec<Hist> = vec![];
+                let mut n = 0u64;
+                // chunks keep memory bounded and let the budget be checked between them
+                for chunk in fr.chunks(2048) {
+                    if run.elapsed_s() > deadline {
+                        completed = depth - 1;
+                        exhaustive = false;
+                        break 'levels;
+                    }
+                    let results: Vec<(Vec<Child>, u64, Vec<(String, Hist)>)> = chunk.par_iter().map(|h| successors(*cfg, h, &ph.events, &ph.alphabet)).collect();
+                    for (children, rp, panics) in results {
+                        ph_replays += rp;
+                        for p in panics {
+                            panics_seen.entry(p.0.clone()).or_insert_with(|| (format!("[cfg {}] {} :: history: {}", cfg.name, p.0, hist_text(&p.1)), witness(cfg, &p.1, 0)));
+                        }
+                        for c in children {
+                            ph_trans += 1;
+                            handle(&run, cfg, &c, &mut agg, &mut other_props);
+                            classify_state(&mut state_classes, &c);
+                            if seen[ci].insert(vpc::fnv64(c.key.as_bytes())) {
+                                n += 1;
+                                if depth < ph.max_depth {
+                                    next.push(c.hist);
+                                }
+                            }
+                            let _ = c.replays;
+                        }
+                    }
+                }
+                per_depth[ci].push(n);
+                frontier[ci] = next;
+            }
+            eprintln!("phase {} depth {depth} done: states {:?} transitions {ph_trans} t={:.1}s", ph.name, seen.iter().map(|s| s.len()).collect::<Vec<_>>(), run.elapsed_s());
+        }
+        let st: u64 = seen.iter().map(|s| s.len() as u64).sum();
+        total_states += st;
+        total_trans += ph_trans;
+        total_replays += ph_replays;
+        bounds.push(format!("{}: depth {}{}", ph.name, completed, if completed < ph.max_depth { format!(" (requested {}, time share hit)", ph.max_depth) } else { String::new() }));
+        phase_reports.push(json!({
+            "phase": ph.name, "alphabet": ph.what,
+            "events": ph.events.iter().map(|e| format!("{e:?}")).collect::<Vec<_>>(),
+            "lookup_outcomes": ph.alphabet.iter().map(|o| o.label()).collect::<Vec<_>>(),
+            "depth_requested": ph.max_depth, "depth_completed": completed,
+            "states": st, "transitions": ph_trans, "histories_executed": ph_replays,
+            "wall_s": ((run.elapsed_s() - phase_start) * 10.0).round() / 10.0,
+            "per_configuration": cfgs.iter().enumerate().map(|(ci, c)| json!({"config": c.name, "min_refetch_delay_s": c.min_delay, "max_cached": c.max_cached, "states": seen[ci].len(), "new_states_per_depth": per_depth[ci]})).collect::<Vec<_>>(),
+        }));
+    }
+
+    for (loc, (full, wit)) in &panics_seen {
+        if loc.starts_with("tie-choice-unreachable") {
+            run.outcome_n("tie-choice-unreachable (dropped branch)", 1);
+            continue;
+        }
+        // the worker task dies: attributed to C06 ("whatever the sequence of lookups ...")
+        let class = format!("panic@{}", loc.rsplit(" @ ").next().unwrap_or(loc).trim_start_matches("/repo/"));
+        if run.prop == "C06" {
+            run.violation(&class, full, wit.clone());
+        } else {
+            run.outcome_n(&format!("oracle-of-other-property-fired C06:{class}"), 1);
+        }
+    }
+    for (k, n) in &state_classes {
+        run.outcome_n(k, *n);
+    }
+    for (k, n) in &other_props {
+        run.outcome_n(&format!("oracle-of-other-property-fired {k}"), *n);
+    }
+    run.outcome_n("ticks executed in last steps", agg.ticks as u64);
+    run.outcome_n("lookups consumed in last steps", agg.lookups as u64);
+    run.outcome_n("transitions that changed the slot", agg.slot_changes as u64);
+    run.outcome_n("transitions that changed the slot while consuming an issue", agg.slot_changed_after_issue as u64);
+    run.outcome_n("issue consumed that lies on the slot's path", agg.issue_consumed_on_slot as u64);
+    run.outcome_n("steering demanded by the C07 oracle", agg.steer_demanded as u64);
+    run.outcome_n("steering don't-care (every alternative freshly penalised)", agg.steer_dontcare as u64);
+    run.outcome_n("steering impossible (no cached alternative avoids the interface)", agg.steer_no_alternative as u64);
+    run.outcome_n("Deliver of reports lying on no cached path", agg.unrelated_deliver as u64);
+    run.outcome_n("reports ignored by the dedup window", agg.dedup_ignored as u64);
+    run.outcome_n("p1/p2 ranking tie points", agg.tie_points as u64);
+    run.outcome_n("slot moved onto a path whose penalty is older than a half-life", agg.recover_selected as u64);
+
+    let bound = format!("all event histories after the initial lookup up to: {} ; each over 4 configurations (min_refetch_delay 5/4 s x max_cached 2/3)", bounds.join("; "));
+    run.finish(
+        "model_checking",
+        json!({
+            "states": total_states,
+            "transitions": total_trans,
+            "traces_validated_against_impl": total_replays,
+            "exhaustive": exhaustive,
+            "bound": bound,
+            "phases": phase_reports,
+            "alphabet": {
+                "branching_ticks_per_advance": branch_ticks,
+                "issue_kinds": ISSUES.iter().map(|i| i.0).collect::<Vec<_>>(),
+                "expiry_profiles_s": {"far": 1000, "soon": 12, "near": 8, "expired": -1},
+                "policy": ACL,
+                "paths": UNIVERSE.iter().map(|d| json!({"name": d.name, "first_egress": d.first_eg, "transit": d.mids, "last_ingress": d.last_in, "metadata": d.has_meta})).collect::<Vec<_>>(),
+            },
+        }),
+        &[
+            "the worker loop is played by the explorer: maintenance fires at its due instant (AdvLate: once per history 1 s late), issue delivery is a separate event",
+            "time is integer seconds; observation instants between ticks are the path-expiry instants and the end of each advance",
+            "inside one advance only the first tick branches over the outcome alphabet, later ticks of the same advance repeat that outcome re-stamped (all tick sequences remain reachable through shorter advances)",
+            "states are merged on a key of subject state relative to now (scores rounded to 1e-3, issue ages clamped at 600 s); the oracles' reference memory is not part of the key",
+            "backoff jitter 0; idle period effectively infinite; one (src,dst) pair",
+            "p1/p2 ranking ties are resolved by the crate through HashMap iteration order (RandomState); the explorer branches on both orders and re-executes until the real object shows the requested one",
+        ],
+    )
+}
+
+/// Non-vacuity classes of reached states.
+fn classify_state(acc: &mut BTreeMap<&'static str, u64>, c: &Child) {
+    // key layout: cfg|cache|slot|...
+    let mut it = c.key.split('|');
+    let _cfg = it.next();
+    let cache = it.next().unwrap_or("");
+    let slot = it.next().unwrap_or("");
+    let n = if cache.is_empty() { 0 } else { cache.split(',').count() };
+    *acc.entry(["state: cache size 0", "state: cache size 1", "state: cache size 2", "state: cache size 3", "state: cache size >3"][n.min(4)]).or_default() += 1;
+    *acc.entry(if slot == "None" { "state: slot empty" } else { "state: slot filled" }).or_default() += 1;
+    if c.viol.iter().any(|v| v.class.starts_with("expired-slot")) {
+        *acc.entry("transition reaching an instant with an expired slot path").or_default() += 1;
+    }
+    if c.viol.iter().any(|v| v.class.starts_with("empty-slot")) {
+        *acc.entry("transition reaching an instant with empty slot and unexpired cached path").or_default() += 1;
+    }
 }
